@@ -53,13 +53,13 @@ def addToDepthCoordinate (spherical : Bool) (nat : P3 R) (d : R) : P3 R :=
   if spherical then { nat with x := nat.x + d } else { nat with z := nat.z + d }
 
 /-- `Cartesian::distance_between_points_at_same_depth`: sqrt of squared differences of the first two coordinates
-(cartesian.cc); `Spherical::…`: great-circle with the clamp **as written** (`max(0., …)`, spherical.cc:124). -/
+(cartesian.cc); `Spherical::…`: great-circle with the clamp as written (`max(-1., …)` after the `fix:` commit; before it `max(0., …)`). -/
 def distanceSameDepth (spherical : Bool) (p1 p2 : P3 R) : R :=
   if spherical then
     let radius := p1.x
     let c1 := sphericalToCartesian p1
     let c2 := sphericalToCartesian p2
-    radius * acos (Scalar.min (1.0 : R) (Scalar.max (0.0 : R) (P3.dot c1 c2 / (radius * radius))))
+    radius * acos (Scalar.min (1.0 : R) (Scalar.max (-1.0 : R) (P3.dot c1 c2 / (radius * radius))))
   else
     sqrt ((p1.x - p2.x) * (p1.x - p2.x) + (p1.y - p2.y) * (p1.y - p2.y))
 
